@@ -630,7 +630,7 @@ pub fn def(tier: Tier) -> PropertyDef {
 		if name == "DetrendedPriceOscillator" {
 			continue; // no signals
 		}
-		checks.push(pt(&format!("signals_{name}"), tier.pick(4000, 12000), strategy(name, max_len), run));
+		checks.push(pt(&format!("signals_{name}"), tier.pick(4000, 80000), strategy(name, max_len), run));
 		// long one-sided trends with a zig-zag: run, peak and "bars since" counters far from their start
 		let strat = (cfggen::config_strategy(name, GenOpts { wide: false, price_sources: true, nonneg_ma: false }), gen::trend_candle_stream(tier.pick(2500, 12000))).prop_map(move |(mut cfg, s)| {
 			if name == "Example" && !cfg.cfg.is_null() {
@@ -639,7 +639,7 @@ pub fn def(tier: Tier) -> PropertyDef {
 			}
 			SCase { cfg, s }
 		});
-		checks.push(pt(&format!("trend_signals_{name}"), tier.pick(60, 300), strat, run));
+		checks.push(pt(&format!("trend_signals_{name}"), tier.pick(60, 1500), strat, run));
 	}
 	checks.extend(crate::fuzz_entry::corpus_checks("C06"));
 	PropertyDef {
